@@ -4,6 +4,7 @@ import (
 	"context"
 	"fmt"
 	"math/rand"
+	"net"
 	"os"
 	"path/filepath"
 	"strings"
@@ -12,6 +13,7 @@ import (
 	"testing"
 	"time"
 
+	"go.sia.tech/core/gateway"
 	proto4 "go.sia.tech/core/rhp/v4"
 	"go.sia.tech/coreutils/threadgroup"
 	"verifharness/hx"
@@ -823,4 +825,102 @@ func TestCapStorm(t *testing.T) {
 		}
 	}
 	res.Sample(map[string]any{"storm": map[string]int{"connections": nconn, "cap": maxIn, "admitted_staged": res.Counts["storm_staged_inbound"], "admitted_free": res.Counts["storm_free_inbound"]}})
+}
+
+// TestOutbound: the outbound cap under "many candidates at once": the peer store offers 8 reachable
+// peers, peerLoop (the only place that forms outbound connections on its own) runs every 15 ms,
+// outbound peers hang up now and then; the number of outbound peers is sampled all the time and
+// must never exceed WithMaxOutboundPeers, must reach it, and Close must return.
+func TestOutbound(t *testing.T) {
+	res := hx.NewResult()
+	defer res.Write()
+	rng := hx.Rand(77)
+	for round := 0; round < hx.EnvInt("VERIF_OUT_ROUNDS", 3); round++ {
+		maxOut := 1 + rng.Intn(3)
+		nd, err := newNode(nodeCfg{MaxInflight: 4, MaxSubnet: 0, MaxIn: 8, MaxOut: maxOut, Discovery: 15 * time.Millisecond})
+		if err != nil {
+			t.Fatal(err)
+		}
+		const nacc = 8
+		var amu sync.Mutex
+		var transports []interface{ Close() error }
+		var ls []net.Listener
+		for i := 0; i < nacc; i++ {
+			l, err := net.Listen("tcp", fmt.Sprintf("127.0.4.%d:0", i+1))
+			if err != nil {
+				t.Fatal(err)
+			}
+			ls = append(ls, l)
+			go func(l net.Listener) {
+				for {
+					conn, err := l.Accept()
+					if err != nil {
+						return
+					}
+					go func() {
+						tr, err := gateway.Accept(conn, gateway.Header{GenesisID: nd.genesis, UniqueID: gateway.GenerateUniqueID(), NetAddress: l.Addr().String()})
+						if err != nil {
+							conn.Close()
+							return
+						}
+						amu.Lock()
+						transports = append(transports, tr)
+						amu.Unlock()
+					}()
+				}
+			}(l)
+			nd.ps.EphemeralPeerStore.AddPeer(l.Addr().String())
+		}
+		max, reached := 0, false
+		deadline := time.Now().Add(400 * time.Millisecond)
+		nextHang := time.Now().Add(60 * time.Millisecond)
+		for time.Now().Before(deadline) {
+			n := nd.outboundPeers()
+			if n > max {
+				max = n
+			}
+			if n == maxOut {
+				reached = true
+			}
+			if time.Now().After(nextHang) {
+				amu.Lock()
+				if len(transports) > 0 {
+					transports[0].Close()
+					transports = transports[1:]
+				}
+				amu.Unlock()
+				nextHang = time.Now().Add(40 * time.Millisecond)
+			}
+			time.Sleep(300 * time.Microsecond)
+		}
+		res.Eval(fmt.Sprintf("outbound|%d|%d", maxOut, max))
+		if max > maxOut {
+			res.Mismatch("driver:conn:outbound-cap-exceeded", fmt.Sprintf("%d outbound peers at once, WithMaxOutboundPeers(%d)", max, maxOut), nil)
+		}
+		if !reached {
+			res.Note("outbound round %d: the cap %d was never reached (max %d)", round, maxOut, max)
+			res.Count("outbound_vacuous", 1)
+		}
+		// Connect after Close must be refused; Close must return although outbound peers are connected
+		ok := nd.shutdown(closeDeadline)
+		if !ok {
+			res.Mismatch("driver:conn:close-hangs-outbound", fmt.Sprintf("Syncer.Close did not return with %d outbound peers connected\n%s", nd.outboundPeers(), syncerStacks()), nil)
+		}
+		if _, err := nd.s.Connect(context.Background(), ls[0].Addr().String()); err == nil {
+			res.Mismatch("driver:conn:connect-after-close", "Syncer.Connect succeeded after Close had returned", nil)
+		}
+		if err := <-nd.runErr; err != nil {
+			res.Note("Run returned %v", err)
+		}
+		for _, l := range ls {
+			l.Close()
+		}
+		amu.Lock()
+		for _, tr := range transports {
+			tr.Close()
+		}
+		amu.Unlock()
+		res.Count("outbound_max", max)
+	}
+	res.Sample(map[string]any{"outbound_rounds": res.Evaluations})
 }
